@@ -114,6 +114,46 @@ class Ctx:
         except hypothesis.errors.HypothesisException as e:
             raise HarnessError("hypothesis: %s: %s" % (type(e).__name__, e))
 
+    # -- atheris (coverage-guided) -----------------------------------------------------------------
+    def run_fuzz(self, mod, target, runs, max_time=120):
+        """Run vcij.fuzz.driver in a fresh process; replay crash inputs here to obtain the violation."""
+        import glob as _glob
+        import re
+        import shutil
+        import subprocess
+        import tempfile
+        from hypothesis import HealthCheck, given, settings
+        deps = os.path.join(VERIF, ".deps")
+        if not os.path.isdir(os.path.join(deps, "atheris")):
+            self.notes.append("atheris not installed (run ./setup.sh): fuzz target %s skipped" % target)
+            return
+        art = tempfile.mkdtemp(prefix="cijfuzz-")
+        try:
+            env = dict(os.environ)
+            env["PYTHONPATH"] = os.pathsep.join([VERIF, deps, env.get("PYTHONPATH", "")])
+            cmd = [sys.executable, "-m", "vcij.fuzz.driver", self.prop_id, target, str(runs), str(self.seed), art, str(max_time)]
+            r = subprocess.run(cmd, env=env, capture_output=True, text=True, timeout=max_time * 3 + 300)
+            m = re.findall(r"stat::number_of_executed_units:\s*(\d+)", r.stderr)
+            nexec = int(m[-1]) if m else 0
+            cov = re.findall(r"cov: (\d+)", r.stderr)
+            crashes = sorted(_glob.glob(os.path.join(art, "crash-*")))
+            self.notes.append("atheris %s/%s: %d executions, coverage counter %s, %d crash input(s)" % (
+                self.prop_id, target, nexec, cov[-1] if cov else "?", len(crashes)))
+            self.stats.evaluations += nexec
+            self.stats.sub["fuzz:" + target] += nexec
+            self.stats.classes["atheris-executions"] += nexec
+            if not crashes and r.returncode != 0 and nexec == 0:
+                raise HarnessError("atheris driver failed: %s" % r.stderr[-600:])
+            if crashes:
+                body, strategies = mod.fuzz_targets(self)[target]
+                test = settings(database=None, deadline=None, suppress_health_check=list(HealthCheck))(given(*strategies)(body))
+                for cpath in crashes:
+                    data = open(cpath, "rb").read()
+                    test.hypothesis.fuzz_one_input(data)        # raises the PropertyViolation with its case
+                raise HarnessError("atheris reported a crash that does not reproduce: %s" % r.stderr[-400:])
+        finally:
+            shutil.rmtree(art, ignore_errors=True)
+
     # -- observation of the code under test -----------------------------------------------
     def observe(self, fn, *args, _bucket="crash", _case=None, **kwargs):
         """Call code under test where the property demands a value: any exception is a violation."""
